@@ -62,6 +62,12 @@ def run(ctx):
                 cases.append({"instance": inst, "k": k, "mode": mode, "wrapper": "vc"})
                 if (k in (1, 28) or thorough) and (mode != "commit" or k == 1 or thorough):
                     cases.append({"instance": inst, "k": k, "mode": mode, "wrapper": "fixed"})
+    if not thorough:
+        # the number of collected range checks grows with the number of query rounds; anything keyed to that count (batching, base-width
+        # selection) may misbehave at some k only: a few seeded k under the commit checker for one proof of each circuit
+        for inst in ("testdata", "random"):
+            for k in rnd.sample(range(2, 28), 3):
+                cases.append({"instance": inst, "k": k, "mode": "commit", "wrapper": "vc"})
     # heavy cases first
     cost = {"commit": 24, "plain": 15, "native": 3}
     cases.sort(key=lambda c: -cost[c["mode"]] * c["k"])
